@@ -26,29 +26,29 @@ Theorem c18_translated_first_msg_attribute_wins : forall l,
 Proof. exact parsed_msg_is_the_first. Qed.
 
 (* `sv::attr(..)` on an instantiate / migrate handler is refused *)
-Theorem c18_translated_variant_attr_on_struct_message_is_refused : forall l ty v,
-  s_msg (fold_left step l init) = Some (ty, v) -> s_vattrs (fold_left step l init) <> [] ->
+Theorem c18_translated_variant_attr_on_struct_message_is_refused : forall l ty rs v,
+  s_msg (fold_left step l init) = Some (ty, rs, v) -> s_vattrs (fold_left step l init) <> [] ->
   (ty = "Instantiate" -> In (VStr "The attribute `sv::attr` is not supported for `instantiate`") (s_diags (finish (fold_left step l init)))) /\
   (ty = "Migrate" -> In (VStr "The attribute `sv::attr` is not supported for `migrate`") (s_diags (finish (fold_left step l init)))).
 Proof. exact variant_attr_on_struct_message_is_refused. Qed.
 
 (* `#[sv::payload]` without parameters is refused; `#[sv::data]` without parameters is accepted with the default *)
-Theorem c18_translated_bare_payload_and_data : forall s path e ty,
+Theorem c18_translated_bare_payload_and_data : forall s path e ty rs,
   (classify path = Some KPayload ->
-   s_diags (step s {| a_path := path; a_content := NotList e; a_msg_type := ty |}) = s_diags s ++ [VStr "Missing parameters for `sv::payload`"]) /\
+   s_diags (step s {| a_path := path; a_content := NotList e; a_msg_type := ty; a_resp := rs |}) = s_diags s ++ [VStr "Missing parameters for `sv::payload`"]) /\
   (classify path = Some KData ->
-   s_data (step s {| a_path := path; a_content := NotList e; a_msg_type := ty |}) = Some (VCon "DataFieldParams::default" []) /\
-   s_diags (step s {| a_path := path; a_content := NotList e; a_msg_type := ty |}) = s_diags s).
-Proof. intros s path e ty. unfold step. cbn [a_path a_content]. split; intros ->; cbn; auto. Qed.
+   s_data (step s {| a_path := path; a_content := NotList e; a_msg_type := ty; a_resp := rs |}) = Some (VCon "DataFieldParams::default" []) /\
+   s_diags (step s {| a_path := path; a_content := NotList e; a_msg_type := ty; a_resp := rs |}) = s_diags s).
+Proof. intros s path e ty rs. unfold step. cbn [a_path a_content]. split; intros ->; cbn; auto. Qed.
 
 (* non-vacuity: a method with `#[sv::msg(exec)] #[doc] #[sv::msg(query)]`: the first kind is kept, one diagnostic *)
 Definition ex_attrs : list ain :=
-  [ {| a_path := ["sv"; "msg"]; a_content := IsList true (VStr "exec"); a_msg_type := "Exec" |};
-    {| a_path := ["doc"]; a_content := NotList (VStr "not a list"); a_msg_type := "" |};
-    {| a_path := ["sv"; "msg"]; a_content := IsList true (VStr "query"); a_msg_type := "Query" |} ].
+  [ {| a_path := ["sv"; "msg"]; a_content := IsList true (VStr "exec"); a_msg_type := "Exec"; a_resp := none |};
+    {| a_path := ["doc"]; a_content := NotList (VStr "not a list"); a_msg_type := ""; a_resp := none |};
+    {| a_path := ["sv"; "msg"]; a_content := IsList true (VStr "query"); a_msg_type := "Query"; a_resp := none |} ].
 Example c18_translated_example :
   length attrparse_fns = 4 /\
-  s_msg (finish (fold_left step ex_attrs init)) = Some ("Exec", VStr "exec") /\
+  s_msg (finish (fold_left step ex_attrs init)) = Some ("Exec", none, VStr "exec") /\
   s_diags (finish (fold_left step ex_attrs init)) = [VStr "The attribute `sv::msg` is redefined"].
 Proof. vm_compute. repeat split; reflexivity. Qed.
 
